@@ -240,3 +240,12 @@ pub fn books_of(w: &WorkerProperties<u64, u64>) -> String {
     p.sort();
     format!("{}/{}/{}", q.join("+"), c.join("+"), p.join("+"))
 }
+
+pub fn push_job(w: &mut WorkerProperties<u64, u64>, key: u64, msg: u64) {
+    w.message_queue.push_back(job(key, msg));
+    *w.pending_key_counts.entry(key).or_default() += 1;
+}
+
+pub fn set_handler(w: &mut WorkerProperties<u64, u64>, h: std::sync::Arc<Recorder>) {
+    w.discard_handler = Some(h);
+}
